@@ -347,6 +347,19 @@ class OrderedMultiDict(dict, MutableMappingSequence):
     def copy(self):
         return type(self)(self)
 
+    def __reduce__(self):
+        # The default reduction of a dict subclass replays the items
+        # through __setitem__ on an object whose __init__ has not run (and
+        # shares the private item list with the original), which breaks
+        # copy.copy(), copy.deepcopy() and pickle.  Rebuild from the
+        # ordered list of pairs instead, and carry any other instance
+        # attributes (e.g. a module's .errors) along as state.
+        state = {
+            k: v for k, v in self.__dict__.items()
+            if k != "_OrderedMultiDict__items"
+        }
+        return type(self), (list(self.__items),), state or None
+
     def insert(self, index: int, *args) -> None:
         """Inserts at the index given by *index*.
 
